@@ -37,6 +37,7 @@ type c09case struct {
 	Prior bool      `json:"prior_success"` // every task has succeeded on these inputs before the failing (forced) run
 	Clean bool      `json:"via_clean"`     // the last task is named clean and is run through `spok --clean`
 	Deflt bool      `json:"via_default"`   // the last task is named default and is run by giving no task names
+	Env   int       `json:"ambient_env"`   // core.HostileEnv variant
 }
 
 func (k c09case) key() string { b, _ := json.Marshal(k); return string(b) }
@@ -69,7 +70,9 @@ func c09Gen(r *core.Rng) c09case {
 		c := &t.Cmds[r.Intn(len(t.Cmds))]
 		c.Fail = true
 		c.Form = core.Pick(r, []string{"exit", "exit", "false", "missing", "sh", "signal"})
-		c.Status = core.Pick(r, []int{1, 2, 3, 127, 255, r.Range(1, 255)})
+		// (statuses that shells, CI systems and test runners give a meaning to: 126/127 not executable/found,
+		// 128+n signals - 130 INT, 137 KILL, 141 PIPE, 143 TERM -, 125 git-bisect skip, 77 automake skip, 75 tempfail)
+		c.Status = core.Pick(r, []int{1, 2, 3, 127, 255, 126, 128, 130, 137, 141, 143, 125, 77, 75, 64, 254, r.Range(1, 255), r.Range(1, 255)})
 		switch c.Form {
 		case "false":
 			c.Status = 1
@@ -92,6 +95,7 @@ func c09Gen(r *core.Rng) c09case {
 			k.Req = []string{k.Tasks[0].Name}
 		}
 	}
+	k.Env = r.Intn(4)
 	k.Flags = core.Pick(r, [][]string{nil, {"--quiet"}, {"--json"}, {"--force"}, {"--quiet", "--force"}, {"--json", "--force"}})
 	for _, f := range k.Flags {
 		if f == "--force" && r.Chance(50) {
@@ -232,7 +236,7 @@ func c09Judge(c *core.Ctx, k c09case, res *core.ShardResult) (vs []core.Violatio
 		if k.Deflt {
 			args = append([]string{}, flags...) // no task names at all
 		}
-		inv := core.RunSpok(core.SpokOpts{Bin: c.SpokRace(), Dir: sb.Proj, Home: sb.Home, Args: args})
+		inv := core.RunSpok(core.SpokOpts{Bin: c.SpokRace(), Dir: sb.Proj, Home: sb.Home, Args: args, Env: core.HostileEnv(k.Env, sb.Home)})
 		res.Evaluations++
 		return inv, sb.readLog()
 	}
